@@ -20,6 +20,7 @@ RULE = (
     'object holds at call time, distances from the image enumeration.  Non-trivial = at least two jumps, at least '
     'one event into or out of no-site and more than one label; distinct = SHA-1 of (states, sites, labels).'
 )
+RULE += " Added in rounds 5-10: parts of Jumps.split recounted with the parent's minimal_residence; number of parts checked; sites holding more than one atom on average (loud refusal accepted, other numbers not)."
 ASSUMPTIONS = [
     'the event table and jump table themselves are judged by C03 / C04; here only aggregation',
     'rates(): the per-part jump counters come from the real Jumps.split (its conservation laws are C19); each part is recounted from its own transitions with the parent\'s minimal_residence through the real Transitions.jumps',
